@@ -843,7 +843,9 @@ impl<'a> TokenLexer<'a> {
                             let result = match self.consume_symbol(remaining) {
                                 Some(result) => result,
                                 None => {
-                                    self.advance_line(1);
+                                    // The error token covers the whole character,
+                                    // so that it ends on a character boundary.
+                                    self.advance_line_utf8(next_char.len_utf8(), 1);
                                     Error
                                 }
                             };
